@@ -22,6 +22,19 @@ CLAIMED = {
         design="4 (C19)"),
 }
 
+CLAIMED["C12"] = dict(
+    text="Bounded model checking of the compiled stack primitives (stack_push/pop/flip/roll) against the abstract "
+         "machine of Rumination 002 as one inductive step from an arbitrary stack state (concrete depth 0..4, symbolic "
+         "contents/arguments), and of the dispatch layer stack_fwd/stack_inv (every action x direction) against the "
+         "primitives with the documented inverse argument transformations; panics, underflow stomping and counts "
+         "included.",
+    note=TRUST + "M-BTREE (inline sorted-array model of BTreeMap, validated by the repo's unit tests) for the dispatch "
+         "harnesses; core::result::unwrap_failed stubbed (panic kept, message dropped). Representation invariant "
+         "assumed: every stack column has one row per operand. Outside: stack::new validation (text), depths > 4, "
+         "more than 2 operands.",
+    technique="Kani/CBMC bounded model checking (SAT, cadical): inductive step per stack instruction + dispatch differential",
+    design="4 (C12)")
+
 NA = {
     "C05": "differential identities over compositions of libm functions on the ellipsoid: no precise libm in CBMC, no "
            "theory of sin/atanh/exp in z3/cvc5; uninterpreted functions erase what the property is about (DESIGN 4/C05)",
